@@ -23,15 +23,15 @@ type partCase struct {
 	Pattern  string `json:"pattern,omitempty"`
 	Len      int    `json:"len"`
 	PartSize int    `json:"part_size"`
-	Order    []int  `json:"order,omitempty"`   // arrival: indices in arrival order (with a duplicate)
-	Part     int    `json:"part,omitempty"`    // mutant: which part is mutated
-	Mutant   string `json:"mutant,omitempty"`  // mutant name
-	Arg      int    `json:"arg,omitempty"`     // mutant argument
-	Pre      string `json:"pre,omitempty"`     // receiver pre-state: empty | others | all-but-target... see code
-	Leaves   int    `json:"leaves,omitempty"`  // merkle
-	Index    int    `json:"index,omitempty"`   // merkle
-	Total    int    `json:"total,omitempty"`   // merkle
-	Leaf     int    `json:"leaf,omitempty"`    // merkle: which leaf hash is offered
+	Order    []int  `json:"order,omitempty"`  // arrival: indices in arrival order (with a duplicate)
+	Part     int    `json:"part,omitempty"`   // mutant: which part is mutated
+	Mutant   string `json:"mutant,omitempty"` // mutant name
+	Arg      int    `json:"arg,omitempty"`    // mutant argument
+	Pre      string `json:"pre,omitempty"`    // receiver pre-state: empty | others | all-but-target... see code
+	Leaves   int    `json:"leaves,omitempty"` // merkle
+	Index    int    `json:"index,omitempty"`  // merkle
+	Total    int    `json:"total,omitempty"`  // merkle
+	Leaf     int    `json:"leaf,omitempty"`   // merkle: which leaf hash is offered
 	ProofOf  int    `json:"proof_of,omitempty"`
 }
 
@@ -230,6 +230,9 @@ func mutantsFor(total, i, nAunts, nBytes int) []mutant {
 	for a := 0; a < nAunts; a++ {
 		ms = append(ms, mutant{"aunt-flip", a}, mutant{"aunt-drop", a}, mutant{"aunt-dup", a})
 	}
+	for a := 0; a <= nAunts; a++ {
+		ms = append(ms, mutant{"aunt-insert", a}) // a junk hash inserted at every position, front included
+	}
 	ms = append(ms, mutant{"aunt-append", 0}, mutant{"aunts-nil", 0})
 	for j := 0; j < total; j++ {
 		if j != i {
@@ -272,6 +275,10 @@ func applyMutant(sender *types.PartSet, i int, mu mutant) *types.Part {
 		a := append([][]byte{}, p.Proof.Aunts[:mu.arg+1]...)
 		a = append(a, append([]byte(nil), p.Proof.Aunts[mu.arg]...))
 		p.Proof.Aunts = append(a, p.Proof.Aunts[mu.arg+1:]...)
+	case "aunt-insert":
+		a := append([][]byte{}, p.Proof.Aunts[:mu.arg]...)
+		a = append(a, bytes.Repeat([]byte{0x77}, 20))
+		p.Proof.Aunts = append(a, p.Proof.Aunts[mu.arg:]...)
 	case "aunt-append":
 		p.Proof.Aunts = append(p.Proof.Aunts, bytes.Repeat([]byte{0x11}, 20))
 	case "aunts-nil":
@@ -615,18 +622,30 @@ func main() {
 	}
 	core.Par(len(cases), func(i int) {
 		k := cases[i]
-		if k.Kind == "arrival" {
-			c.runArrival(k)
-			states.Add(fmt.Sprintf("%s/%d/%d", k.Pattern, k.Len, k.PartSize))
-		} else {
-			c.runMutant(k)
+		// cases run concurrently on all cores: a panic anywhere inside the code under test
+		// (also one caused by state shared between concurrent callers) is a verdict, not a crash of the check
+		if p, v, st := core.Try(func() {
+			if k.Kind == "arrival" {
+				c.runArrival(k)
+				states.Add(fmt.Sprintf("%s/%d/%d", k.Pattern, k.Len, k.PartSize))
+			} else {
+				c.runMutant(k)
+			}
+		}); p {
+			c.run.Report(map[string]string{"site": core.PanicSite(st), "kind": "panic", "case": k.Kind, "mutant": k.Mutant, "concurrent": "yes"}, k,
+				"panic while cases run concurrently: "+core.FirstLine(v))
 		}
 		if i%9973 == 0 {
 			c.samples.Add(k)
 		}
 	})
 	maxLeaves := 17
-	core.Par(maxLeaves, func(i int) { c.runMerkle(i + 1) })
+	core.Par(maxLeaves, func(i int) {
+		if p, v, st := core.Try(func() { c.runMerkle(i + 1) }); p {
+			c.run.Report(map[string]string{"site": core.PanicSite(st), "kind": "panic", "case": "merkle", "concurrent": "yes"}, partCase{Kind: "merkle", Leaves: i + 1},
+				"panic while trees are checked concurrently: "+core.FirstLine(v))
+		}
+	})
 	c.samples.Add(partCase{Kind: "merkle", Leaves: 7, ProofOf: 3, Index: 3, Total: 8, Leaf: 3})
 
 	run.Finish(core.Coverage{
@@ -635,7 +654,7 @@ func main() {
 		"traces_validated_against_impl": int(c.evals),
 		"evaluations":                   int(c.evals),
 		"distinct_nontrivial":           c.classes.Len(),
-		"rule":                          "every (data length 0..40, part size 1..9, byte pattern distinct|zero) × {every arrival permutation with one duplicate at every position for totals<=5; identity, reverse and adjacent transpositions above} and × every single-field mutant (index −2,−1,i±1,total,total+1,2^31; byte flips first/middle/last, append, drop, empty; each aunt flipped/dropped/duplicated, extra aunt, nil aunts; proof of every other part; every other part under this index) × receiver pre-state {empty, all others present, complete}; Merkle trees of 1..17 leaves × every leaf's proof × every (index,total) in [−2,19]² × {own leaf, neighbours}; distinct_nontrivial counts distinct (mutant kind, pre-state, verdict) classes observed",
+		"rule":                          "every (data length 0..40, part size 1..9, byte pattern distinct|zero) × {every arrival permutation with one duplicate at every position for totals<=5; identity, reverse and adjacent transpositions above} and × every single-field mutant (index −2,−1,i±1,total,total+1,2^31; byte flips first/middle/last, append, drop, empty; each aunt flipped/dropped/duplicated, a junk aunt inserted at every position, extra aunt, nil aunts; proof of every other part; every other part under this index) × receiver pre-state {empty, all others present, complete}; Merkle trees of 1..17 leaves × every leaf's proof × every (index,total) in [−2,19]² × {own leaf, neighbours}; distinct_nontrivial counts distinct (mutant kind, pre-state, verdict) classes observed",
 		"arrival_cases":                 arrivals,
 		"mutant_cases":                  mutants,
 		"merkle_trees":                  maxLeaves,
